@@ -137,8 +137,8 @@ Definition const_model (r : rawinput) (bitwidth : option Z) (signed : bool) : re
 
 (* ---- formatted_str_to_val / val_to_formatted_str ---------------------------------- *)
 (* format = type character followed by decimal bitwidth, optionally "/EnumName".
-   The enum set is modelled as the member table of the selected enum: (name, value) in definition
-   order; None = no enum of that name in enum_set. *)
+   enum_set is modelled as a list of (enum class name, member table (name, value) in definition
+   order). *)
 Fixpoint take_until (sep : Z) (s : str) : str :=
   match s with [] => [] | c :: t => if c =? sep then [] else c :: take_until sep t end.
 
@@ -159,7 +159,21 @@ Fixpoint enum_by_name (data : str) (e : list (str * Z)) : option Z :=
 Fixpoint enum_by_value (v : Z) (e : list (str * Z)) : option str :=
   match e with [] => None | (n, v') :: t => if v =? v' then Some n else enum_by_value v t end.
 
-Definition formatted_str_to_val (data f : str) (enum : option (list (str * Z))) : res Z :=
+(* format.split('/')[1] : the text between the first and the second '/' (None = IndexError) *)
+Fixpoint enum_name (f : str) : option str :=
+  match f with [] => None | c :: t => if c =? 47 then Some (take_until 47 t) else enum_name t end.
+
+(* [e for e in enum_set if e.__name__ == enumname][0] *)
+Fixpoint find_enum (name : str) (es : list (str * list (str * Z))) : option (list (str * Z)) :=
+  match es with [] => None | (n, e) :: t => if str_eqb name n then Some e else find_enum name t end.
+
+Definition enum_of (f : str) (es : list (str * list (str * Z))) : res (list (str * Z)) :=
+  match enum_name f with
+  | None => Err 93
+  | Some n => match find_enum n es with Some e => Ok e | None => Err 1 end
+  end.
+
+Definition formatted_str_to_val (data f : str) (es : list (str * list (str * Z))) : res Z :=
   match format_parse f with
   | None => Err 90
   | Some (ty, bw) =>
@@ -171,14 +185,14 @@ Definition formatted_str_to_val (data f : str) (enum : option (list (str * Z))) 
                              | Some n => if n <? 0 then Err 1 else Ok n
                              | None => Err 91
                              end
-      else if ty =? 101 then match enum with
-                             | None => Err 2
-                             | Some e => match enum_by_name data e with Some v => Ok v | None => Err 92 end
+      else if ty =? 101 then match enum_of f es with
+                             | Err k => Err k
+                             | Ok e => match enum_by_name data e with Some v => Ok v | None => Err 92 end
                              end
       else Err 3
   end.
 
-Definition val_to_formatted_str (val : Z) (f : str) (enum : option (list (str * Z))) : res str :=
+Definition val_to_formatted_str (val : Z) (f : str) (es : list (str * list (str * Z))) : res str :=
   match format_parse f with
   | None => Err 90
   | Some (ty, bw) =>
@@ -186,9 +200,9 @@ Definition val_to_formatted_str (val : Z) (f : str) (enum : option (list (str * 
       else if ty =? 120 then Ok (py_hex2 val)
       else if ty =? 98 then Ok (py_bin2 val)
       else if ty =? 117 then Ok (py_str val)
-      else if ty =? 101 then match enum with
-                             | None => Err 1
-                             | Some e => match enum_by_value val e with Some n => Ok n | None => Err 92 end
+      else if ty =? 101 then match enum_of f es with
+                             | Err k => Err k
+                             | Ok e => match enum_by_value val e with Some n => Ok n | None => Err 92 end
                              end
       else Err 2
   end.
